@@ -48,6 +48,8 @@ def parse_tree(parent: Optional[Feature], feature_node: Dict[str, Any]) -> Featu
     """Parse the tree structure and returns the root feature."""
     feature_name = feature_node['name']
     is_abstract = feature_node['abstract']
+    if not isinstance(feature_name, str):
+        raise ParsingException(f'The name of a feature is not a string in JSON: {feature_name}')
     if isinstance(is_abstract, str):  # files written by earlier versions hold 'True' / 'False'
         is_abstract = is_abstract == 'True'
     feature = Feature(name=feature_name, parent=parent, is_abstract=is_abstract)
@@ -90,6 +92,9 @@ def parse_relations(feature: Feature, feature_node: Dict[str, Any]) -> None:  # 
             elif relation_type == JSONFeatureType.CARDINALITY.value:  # Group Cardinality
                 card_min = relation['card_min']
                 card_max = relation['card_max']
+                for card in (card_min, card_max):
+                    if not isinstance(card, int) or isinstance(card, bool):
+                        raise ParsingException(f'Invalid cardinality in JSON: {relation}')
                 new_relation = Relation(feature, children, card_min, card_max)
             if new_relation is not None:
                 feature.add_relation(new_relation)
